@@ -62,6 +62,8 @@ def eval_cond(c, env, domains=None) -> bool:
     if k == "forall":
         u = c[1]
         return all(eval_cond(c[2], {**env, u: w}, domains) for w in domains[u])
+    if k == "const":
+        return bool(c[1])
     raise ValueError(f"unknown condition {c!r}")
 
 
@@ -69,7 +71,7 @@ def eval_cond(c, env, domains=None) -> bool:
 
 def cond_vars(c) -> set:
     k = c[0]
-    if k == "true":
+    if k in ("true", "const"):
         return set()
     if k == "cmp":
         return term_vars(c[2]) | term_vars(c[3])
@@ -213,5 +215,8 @@ def r_cond(c) -> str:
     if k == "not":
         return f"not_({r_cond(c[2])})" if c[1] == "not_" else f"~({r_cond(c[2])})"
     if k == "forall":
-        return f"for_all(v{c[1]}, {r_cond(c[2])})"
+        ut = r_term(c[3]) if len(c) > 3 else f"v{c[1]}"
+        return f"for_all({ut}, {r_cond(c[2])})"
+    if k == "const":
+        return repr(bool(c[1]))
     return str(c)
